@@ -8,7 +8,7 @@ import tempfile
 
 VERIF = os.path.dirname(os.path.dirname(os.path.abspath(__file__)))
 REPO = os.environ.get('VERIF_REPO', '/repo')
-PY = os.path.join(VERIF, '.venv', 'bin', 'python')
+PY = sys.executable
 
 
 class Build:
